@@ -30,7 +30,8 @@ def runner_tasks(tier):
             {"module": "c10", "task": "shared_mutables", "kind": "eval", "clause": "no shared mutable per-atom objects"},
             {"module": "c10", "task": "formula_routing", "kind": "eval", "clause": "formula(s, table=T) and pickles stay in T"},
             {"module": "c10", "task": "histories", "kind": "bounded", "clause": "sampled interleavings", "timeout": 3000},
-            {"module": "stateful", "task": "C06", "name": "init order", "kind": "bounded", "clause": "private tables initialised in other orders serve the same masses / densities"}]
+            {"module": "stateful", "task": "C06", "name": "init order", "kind": "bounded", "clause": "private tables initialised in other orders serve the same masses / densities"},
+            {"module": "independence", "task": "observations", "name": "independence", "kind": "bounded", "arg": {"tags": ["C10"]}, "clause": "fixed observations give the same value as the first use of the library in a fresh interpreter, in a warmed-up interpreter (twice) and in reverse order, and have their documented value", "timeout": 900}]
 
 
 REPLAY = {"module": "c10", "task": "replay"}
